@@ -10,7 +10,7 @@ caught=0; missed=0; missed_ids=""
 for d in seeded/*/; do
   id=$(basename "$d"); prop=${id%%-*}
   if [ $# -gt 0 ]; then ok=0; for p in "$@"; do [[ $id == $p* ]] && ok=1; done; [ $ok = 1 ] || continue; fi
-  git -C "$REPO" apply "$d/patch.diff" || { echo "$id APPLY-FAILED"; continue; }
+  git -C "$REPO" apply "$PWD/${d%/}/patch.diff" || { echo "$id APPLY-FAILED"; continue; }
   VERIF_REPO=$REPO ./check "$prop" quick > /tmp/regress_$id.log 2>&1; code=$?
   git -C "$REPO" checkout -q -- . ; git -C "$REPO" clean -fdq -- fast-tlsh/src
   if [ $code = 1 ]; then caught=$((caught+1)); echo "$id caught ($(grep -m1 -o 'class=[^ ]*' /tmp/regress_$id.log))";
